@@ -342,6 +342,18 @@ def slice_opts(opts, b):
     return o
 
 
+def positive_axes(opts, ndim):
+    """the same tying option spelled with non-negative axis numbers of an affiliation with `ndim` axes"""
+    o = dict(opts)
+    w = o.get('weight_constant_axis')
+    conv = lambda a: int(a) + ndim if int(a) < 0 else int(a)
+    if isinstance(w, (tuple, list)):
+        o['weight_constant_axis'] = type(w)(conv(a) for a in w)
+    elif w is not None:
+        o['weight_constant_axis'] = conv(w)
+    return o
+
+
 def mix_obs(name, model):
     field, kind = COMP[name]
     ob = {'component.' + k: v for k, v in observables(kind, getattr(model, field)).items()}
@@ -362,12 +374,15 @@ def eval_mix(rp, rng=None):
     try:
         sl = {}
         for b in np.ndindex(*lead):
-            m, _ = mm.fit(name, {'y': y[b]}, init[b], iterations=it, **slice_opts(opts, b))
+            so = slice_opts(opts, b)
+            if rp.get('positive_axes'):
+                so = positive_axes(so, 2)
+            m, _ = mm.fit(name, {'y': y[b]}, init[b], iterations=it, **so)
             sl[b] = m
     except EXPLICIT as e:
         return None, None, None, 'slice fit raised %s: %s' % (type(e).__name__, str(e)[:100]), False
     try:
-        M, trace = mm.fit(name, data, init, iterations=it, **opts)
+        M, trace = mm.fit(name, data, init, iterations=it, **(positive_axes(opts, init.ndim) if rp.get('positive_axes') else opts))
     except Exception as e:  # noqa
         return ('%s trainer raises %s on a stack with leading shape %s although every slice fits alone: %s'
                 % (name, type(e).__name__, lead, str(e)[:200])), 'raises:fit:%s' % name, None, None, False
@@ -434,19 +449,29 @@ def coq_mix(rng, name, y, opts, M, trace, lead):
     return 'allR [%s]' % '; '.join(parts)
 
 
-def _case_mix(rng, tier, name):
+_MX = [0]
+
+
+def _case_mix(rng, tier, name, axes_stratum=False):
     cap = {'cbmm': 4, 'cwmm': 30}.get(name, 40)
     lead = lead_shape(rng, cap=cap)
+    if axes_stratum:
+        lead = (int(rng.integers(2, 4)), int(rng.integers(2, 4)))        # two leading axes
     K = 2 if name == 'cbmm' else int(rng.integers(2, 4))
     D = int(rng.integers(2, 4)) if name == 'cbmm' else int(rng.integers(2, 5))
     N = int(rng.integers(6, 9)) if name == 'cbmm' else int(rng.integers(3 * K + 2 * D, 3 * K + 2 * D + 8))
     data = mm.make_data(rng, name, K, D, N, lead, separation=float(rng.choice([0.5, 2.0, 4.0])))
     init = mm.make_init(rng, K, N, lead, ['positive', 'dirichlet'][int(rng.integers(0, 2))])
     opts = mix_options(rng, name, K, N, lead)
+    if axes_stratum:
+        # the tying option in every spelling (tuple / int / list), with non-negative axis numbers
+        opts['weight_constant_axis'] = [(-1,), -1, [-1]][_MX[0] % 3]
     it = 1 if name == 'cbmm' else int(rng.integers(1, 4))
-    rp = {'fn': 'mix', 'model': name, 'y': data['y'], 'init': init, 'opts': opts, 'iterations': it, 'coqseed': int(rng.integers(0, 2 ** 31))}
+    _MX[0] += 1
+    rp = {'fn': 'mix', 'model': name, 'y': data['y'], 'init': init, 'opts': opts, 'iterations': it, 'coqseed': int(rng.integers(0, 2 ** 31)),
+          'positive_axes': _MX[0] % 4 == 0 or axes_stratum}
     fail, key, coq, raised, nt = eval_mix(rp, rng)
-    label = '%s lead=%s K=%d D=%d N=%d it=%d opts=%s' % (name, lead, K, D, N, it, mm.describe_options(opts))
+    label = '%s lead=%s K=%d D=%d N=%d it=%d positive_axes=%s opts=%s' % (name, lead, K, D, N, it, rp['positive_axes'], mm.describe_options(opts))
     return Case(label, coq=coq, pred_fail=fail, key=key, nontrivial=nt, digest_=core.digest(label, data['y'], init),
                 sample={'name': label}, replay=rp, raised=raised, kind='mix/' + name)
 
@@ -610,6 +635,9 @@ def cases(rng, tier):
             if name == 'cbmm' and rep >= (2 if q else 20):
                 continue
             out.append(case_mix(rng, tier, name))
+    for rep in range(3 if q else 15):
+        for name in ('cacgmm', 'cwmm', 'gmm', 'vmfmm'):
+            out.append(case_mix(rng, tier, name, axes_stratum=True))
     for rep in range(4 if q else 40):
         for name in MIX:
             if name == 'cbmm' and rep >= (1 if q else 10):
